@@ -25,7 +25,7 @@ func init() {
 			Assumptions: []string{"go/types + go/ssa", "types.Sizes of the target for Sizeof(unix.InotifyEvent)", "C15 (flag tables) and C16 (Op.Has) for the meaning of bit tests"},
 			MinObl:      14,
 		},
-		Configs: tiered(linuxQuick, linuxAll),
+		Configs: tiered(concat(linuxQuick, []Config{{"freebsd", "amd64"}}), concat(linuxAll, kqueueQuick)),
 		Run:     runC01,
 	})
 }
@@ -33,6 +33,24 @@ func init() {
 func runC01(p *Program, e *Engine, r *Result, tier string) {
 	a := newAn(p, e, r, true)
 	if a == nil {
+		return
+	}
+	if strings.Contains(strings.Join(r.Files, " "), "backend_kqueue.go") {
+		// kqueue backend (cross-compiled): the one clause of this property with a structural form there - a name whose
+		// watch was released (Remove, or the reader on Remove/Rename) loses its 'seen' mark with it, so that the Create of
+		// a file that later appears under that name is reported (= C18.6). A stale mark is a lost Create.
+		kf := kqFind(a)
+		if kf == nil {
+			return
+		}
+		computeRemoval(a, kf)
+		readsTableEngine = a.E
+		seenT := c18SeenTable(a, kf)
+		if seenT == nil || len(a.Ro.Readers) == 0 {
+			a.R.fail("anchor unresolved: the 'seen' table / the reader of the kqueue backend")
+			return
+		}
+		c18ReleaseClearsSeen(a, kf, seenT, a.Ro.Readers[0], "C01.9")
 		return
 	}
 	df := decodeFacts(a)
